@@ -94,7 +94,22 @@ pub fn ymd(d: NaiveDate) -> (i32, u32, u32) { (d.year(), d.month(), d.day()) }
 use chrono::TimeDelta;
 pub const NS: i128 = 1_000_000_000;
 /// A duration is its exact nanosecond count.
-pub fn dur_ns(d: TimeDelta) -> i128 { d.num_seconds() as i128 * NS + d.subsec_nanos() as i128 }
+pub fn dur_ns(d: TimeDelta) -> i128 {
+    let ns = d.num_seconds() as i128 * NS + d.subsec_nanos() as i128;
+    // screen for INTERNAL consistency (a duration is stored as seconds + normalised nanoseconds): the value rebuilt from the projected
+    // count must be equal to, compare equal with and print like the original; an offender is handed to TLC as a comparison event
+    let s = ns.div_euclid(NS);
+    if s >= i64::MIN as i128 && s <= i64::MAX as i128 {
+        let ok = crate::guard(|| match TimeDelta::new(s as i64, ns.rem_euclid(NS) as u32) {
+            Some(c) => c == d && c.cmp(&d) == std::cmp::Ordering::Equal && c.to_string() == d.to_string() && d.subsec_nanos().unsigned_abs() < 1_000_000_000,
+            None => ns.abs() > DUR_LIM,      // an out-of-range value is reported by the specification's own range check
+        }).unwrap_or(false);
+        if !ok {
+            problem_ev("Trace_Duration", json!({"op": "d.cmp", "a": crate::big::big(ns), "b": crate::big::big(ns), "c": 1, "eq": false, "note": "a TimeDelta that is not in normal form"}));
+        }
+    }
+    ns
+}
 pub fn dur(d: TimeDelta) -> Value { crate::big::big(dur_ns(d)) }
 pub fn mk_dur(ns: i128) -> Option<TimeDelta> {
     let s = ns.div_euclid(NS);
